@@ -6,6 +6,7 @@ mod jsonio;
 mod prog;
 mod s_atten;
 mod s_authz;
+mod s_blockparse;
 mod s_capi;
 mod s_chain;
 mod s_determ;
@@ -55,6 +56,7 @@ fn main() {
         "termparse" => s_termparse::run(&opts),
         "exprparse" => s_exprparse::run(&opts),
         "itemparse" => s_itemparse::run(&opts),
+        "blockparse" => s_blockparse::run(&opts),
         "macros" => s_macros::run(&opts),
         "capi" => s_capi::run(&opts),
         "capi-child" => s_capi::child(&opts),
